@@ -427,6 +427,29 @@ func c03Family(quick bool) []*gen.Grammar {
 			}
 		}
 	}
+	// two sugared terms ADJACENT to each other (an empty one sits right above the
+	// other's value on the parse stack), same and different element types
+	for _, s1 := range sugars {
+		for _, s2 := range sugars {
+			if quick && (s1*7+s2)%4 != 0 {
+				continue
+			}
+			g := &gen.Grammar{Toks: c03Toks}
+			g.Rules = []gen.Rule{{Name: "s", Alts: []gen.Alt{
+				{Terms: []gen.Term{{X: tk(5)}, mkTerm(s1, tk(0)), mkTerm(s2, tk(1)), {X: tk(2)}}},
+				{Terms: []gen.Term{{X: tk(3)}, mkTerm(s2, tk(1)), mkTerm(s1, tk(2))}},
+				{Terms: []gen.Term{{X: tk(2)}, mkTerm(s1, nt(1)), mkTerm(s2, tk(3))}},
+			}}, elemRule}
+			out = append(out, g)
+			// first term of its production: what lies below is the symbol before the enclosing rule
+			g2 := &gen.Grammar{Toks: c03Toks}
+			g2.Rules = []gen.Rule{{Name: "s", Alts: []gen.Alt{
+				{Terms: []gen.Term{mkTerm(s1, tk(0)), {X: nt(2)}}},
+			}}, elemRule, {Name: "b", Alts: []gen.Alt{{Terms: []gen.Term{mkTerm(s2, tk(1)), mkTerm(s2, tk(2)), {X: tk(3)}}}}}}
+			g2.Rules[0].Alts = append(g2.Rules[0].Alts, gen.Alt{Terms: []gen.Term{{X: tk(5)}, {X: nt(1)}}})
+			out = append(out, g2)
+		}
+	}
 	// every grammar built so far also with tokens referenced by literal alias (thorough)
 	if !quick {
 		n := len(out)
